@@ -180,6 +180,26 @@ fn rand_value(rng: &mut Rng, tag: u64) -> Vec<u8> {
     v
 }
 
+/// The live contents as an independent reader of the file must find them after flush().
+pub fn dump_line(store: &FeoxStore) -> String {
+    let snap = store.verif_snapshot();
+    let mut keys = String::new();
+    for r in &snap {
+        let v = match store.get(&r.key) {
+            Ok(v) => format!("{:016x}", fnv1a(&v)),
+            Err(_) => "err".to_string(),
+        };
+        keys.push_str(&format!("{}:{}:{}:{}:{};", hex(&r.key), r.timestamp, r.ttl_expiry, r.value_len, v));
+    }
+    format!(
+        "flushed v={} n={} size={} journal=clear keys={}",
+        store.verif_format_version(),
+        store.len(),
+        store.verif_disk_usage(),
+        if keys.is_empty() { "-".to_string() } else { keys }
+    )
+}
+
 /// child: run a workload on `path` and exit (kill-like: no Drop) or close cleanly.
 pub fn genimg(opts: &Opts) -> i32 {
     let path = opts.str("path", "");
@@ -192,6 +212,8 @@ pub fn genimg(opts: &Opts) -> i32 {
         seed_legacy_device(&path, blocks, version, opts.u64("legacy_checksum", 0) == 1);
     }
     let ending = opts.u64("ending", 0); // 0 = flush+exit, 1 = exit without final flush, 2 = clean drop
+    let dump = opts.str("dump", "");
+    let noexp = opts.u64("noexp", 0) == 1;
     let mut rng = Rng::new(seed);
     let store = match open_store(&path, ttl, false, rng.chance(1, 2), Some(blocks)) {
         Ok(s) => s,
@@ -215,10 +237,11 @@ pub fn genimg(opts: &Opts) -> i32 {
                 };
                 if ttl && rng.chance(1, 3) {
                     // expiry = ts + ttl*1e9 : choose ts so that it is >= 1h in the past or future
-                    let (ts, secs) = if rng.chance(1, 2) {
+                    let (ts, secs) = if !noexp && rng.chance(1, 2) {
                         (Some(now - 3 * hour - rng.below(hour)), rng.range(1, 3000)) // expired
                     } else {
-                        (ts, rng.range(7200, 100_000)) // lives
+                        // lives: expiry counts from the timestamp, so keep the timestamp near now
+                        (if ts.map_or(true, |t| t >= now) { ts } else { None }, rng.range(7200, 100_000))
                     };
                     let _ = store.insert_with_ttl_and_timestamp(&key, &v, secs, ts);
                 } else {
@@ -248,6 +271,11 @@ pub fn genimg(opts: &Opts) -> i32 {
                 let _ = store.insert(&key, &v);
             }
         }
+    }
+    if !dump.is_empty() {
+        let r = store.flush();
+        let line = if r.is_ok() { dump_line(&store) } else { format!("flush-failed {:?}", r.err()) };
+        std::fs::write(&dump, line).unwrap();
     }
     match ending {
         0 => {
@@ -430,4 +458,147 @@ pub fn replay(toks: &[&str]) -> (String, String) {
     let (_now, _rs, line) = probe_image(image, &scratch, get("ttl=") == "1", get("allow=") == "1");
     let v = open_verdict(&line);
     (line, v)
+}
+
+/// child: open an existing image with the working tree, dump, write more, flush, dump again.
+pub fn reopen(opts: &Opts) -> i32 {
+    let path = opts.str("path", "");
+    let ttl = opts.u64("ttl", 0) == 1;
+    let seed = opts.u64("seed", 1);
+    let mut rng = Rng::new(seed);
+    let store = match open_store(&path, ttl, false, rng.chance(1, 2), None) {
+        Ok(s) => s,
+        Err(e) => {
+            println!("reopen-error {}", err_kind(&e));
+            return 0;
+        }
+    };
+    println!("{}", dump_line(&store));
+    let snap = store.verif_snapshot();
+    for i in 0..opts.u64("ops", 12) {
+        match rng.below(4) {
+            0 if !snap.is_empty() => {
+                let k = &snap[rng.below(snap.len() as u64) as usize].key;
+                let _ = store.delete(k);
+            }
+            1 if !snap.is_empty() => {
+                let k = &snap[rng.below(snap.len() as u64) as usize].key;
+                let _ = store.insert(k, &rand_value(&mut rng, seed + i));
+            }
+            _ => {
+                let _ = store.insert(format!("golden-new-{i}").as_bytes(), &rand_value(&mut rng, seed * 3 + i));
+            }
+        }
+    }
+    match store.flush() {
+        Ok(()) => println!("{}", dump_line(&store)),
+        Err(e) => println!("flush-failed {}", err_kind(&e)),
+    }
+    let _ = std::io::stdout().flush();
+    std::mem::forget(store);
+    unsafe { libc::_exit(0) }
+}
+
+/// engine `flushimg` (C10 ii): after flush() an independent reader finds exactly the live contents.
+pub fn run_flushimg(opts: &Opts) -> i32 {
+    let dir = opts.str("out", "/verif/.build/cases/flushimg");
+    let seed = opts.u64("seed", 1);
+    let shards = opts.u64("shards", 16);
+    let per = opts.u64("n", if opts.thorough() { 200 } else { 10 });
+    let keep = format!("{dir}/images");
+    std::fs::create_dir_all(&keep).unwrap();
+    let mut handles = Vec::new();
+    for sh in 0..shards {
+        let dir = dir.clone();
+        let keep = keep.clone();
+        handles.push(std::thread::spawn(move || {
+            let mut out = Out::new(&dir, &format!("s{sh}"));
+            let mut rng = Rng::new(seed.wrapping_mul(15485863).wrapping_add(sh));
+            for i in 0..per {
+                let image = format!("{keep}/f{sh}_{i}.img");
+                let dump = format!("{keep}/f{sh}_{i}.dump");
+                let version = *rng.pick(&[3u64, 3, 2, 1]);
+                let g = run_child(
+                    &[
+                        "genimg".into(),
+                        format!("version={version}"),
+                        format!("legacy_checksum={}", rng.below(2)),
+                        format!("path={image}"),
+                        format!("dump={dump}"),
+                        "noexp=1".into(),
+                        format!("seed={}", rng.next() % 1_000_000_007),
+                        format!("blocks={}", rng.pick(&[48u64, 96, 160])),
+                        format!("ttl={}", rng.below(2)),
+                        format!("ops={}", rng.range(5, 150)),
+                        format!("ending={}", rng.pick(&[0u64, 2])),
+                    ],
+                    60,
+                );
+                let line = std::fs::read_to_string(&dump).unwrap_or_else(|_| format!("no-dump {:?}", g));
+                if line.contains("OutOfSpace") {
+                    // the workload overfilled the small device: flush reported it; nothing to compare
+                    out.emit3("note device-full", "note", "ok");
+                    continue;
+                }
+                let verdict = if line.starts_with("flushed") { "ok" } else { "FAIL flush-did-not-succeed-on-a-healthy-device" };
+                out.emit3(&format!("readdev {image}"), &line, verdict);
+            }
+            out.finish()
+        }));
+    }
+    let mut total = 0;
+    for h in handles {
+        total += h.join().unwrap();
+    }
+    println!("cases={total}");
+    0
+}
+
+/// engine `golden` (C10 iii): files written by the pinned release.
+pub fn run_golden(opts: &Opts) -> i32 {
+    let dir = opts.str("out", "/verif/.build/cases/golden");
+    let gdir = opts.str("golden", "/verif/golden");
+    let seed = opts.u64("seed", 1);
+    let keep = format!("{dir}/images");
+    std::fs::create_dir_all(&keep).unwrap();
+    let mut out = Out::new(&dir, "s0");
+    let mut names: Vec<String> = std::fs::read_dir(&gdir)
+        .map(|d| d.filter_map(|e| e.ok()).map(|e| e.file_name().to_string_lossy().to_string()).filter(|n| n.ends_with(".img.xz")).collect())
+        .unwrap_or_default();
+    names.sort();
+    if names.is_empty() {
+        out.emit3("note no-golden-files", "note", "FAIL golden-corpus-missing");
+    }
+    for name in names {
+        let base = name.trim_end_matches(".img.xz");
+        let expect = std::fs::read_to_string(format!("{gdir}/{base}.expect")).unwrap_or_default().trim().to_string();
+        let orig = format!("{keep}/{base}.orig.img");
+        let work = format!("{keep}/{base}.work.img");
+        let ok = Command::new("sh")
+            .arg("-c")
+            .arg(format!("xz -dc {gdir}/{name} > {orig} && cp {orig} {work}"))
+            .status()
+            .map(|s| s.success())
+            .unwrap_or(false);
+        if !ok {
+            out.emit3(&format!("note cannot-decompress {name}"), "note", "FAIL golden-file-unreadable");
+            continue;
+        }
+        // 1. the model reads the released file to the recorded manifest
+        out.emit3(&format!("readdev {orig}"), &expect, "ok");
+        // 2./3. the working tree reads it to the same manifest, keeps the format when writing
+        // golden files are opened with TTL off: their expiries are absolute instants that pass
+        let ttl = false;
+        let r = run_child(&["reopen".into(), format!("path={work}"), format!("ttl={}", ttl as u8), format!("seed={seed}")], 60).unwrap_or_default();
+        let mut lines = r.lines();
+        let first = lines.next().unwrap_or("").to_string();
+        let second = lines.next().unwrap_or("").to_string();
+        let v1 = if first == expect { "ok" } else { "FAIL released-file-read-back-differs-from-its-manifest" };
+        out.emit3(&format!("readdev {orig}"), &first, v1);
+        let v2 = if second.starts_with("flushed") { "ok" } else { "FAIL write-to-released-file-failed" };
+        out.emit3(&format!("readdev {work}"), &second, v2);
+    }
+    let n = out.finish();
+    println!("cases={n}");
+    0
 }
